@@ -234,7 +234,7 @@ def explore_load(prop, tier, seed, oracle, tags, n_quick, emit=(), with_truth=Fa
                 o.put('load', 'ok'); ob.observe_load(h, o)
                 o.wild_problems = orc.wf_problems(h) + list(o.problems)
                 o.wild_literal = orc.wf_problems(h, literal=True) + list(o.problems)
-                o.wild_always = orc.skipped_levels_single_child(h)
+                o.wild_always = orc.skipped_levels_single_child(h) + orc.no_orphans(h)
                 ex.res.count('wild_files_loaded')
             except Exception as e:      # noqa
                 o.put('load', 'err:' + ob.err_name(e))
@@ -281,6 +281,21 @@ def explore_load(prop, tier, seed, oracle, tags, n_quick, emit=(), with_truth=Fa
             ex.fail(cid, D, bad)
         # (species-level files: the model follows the dissolving branch of the loader too -- compare the whole hierarchy)
         ex.submit(cid, D, o.tags, tags + (['forest', 'genomes'] if D.meta.get('species_level') else []), emit=emit, extra=o)
+        if prop == 'C02' and D.naming == 'own' and D.families and k % 6 == 0:
+            # species_resolve_mode="OMA": whatever a clade named as species resolves to, a loaded analysis keeps genes at leaves
+            internal_ = [gen.display_name(D.T, p_, 'own') for p_ in gen.paths(D.T) if gen.sub(D.T, p_)[1]]
+            for i_ in range(len(D.species)):
+                for nm_ in internal_:
+                    sp_ = list(D.species); sp_[i_] = (nm_, sp_[i_][1])
+                    try:
+                        ho = core.load_py(D, species=sp_, species_resolve_mode='OMA')
+                    except Exception:      # noqa
+                        continue
+                    ex.res.count('oma_mode_loads')
+                    b_ = [x for x in orc.wf_problems(ho) if 'leaf' in x]
+                    b_ += ['OMA mode: extant genome %r sits on an internal taxon' % g_.name for g_ in ho.get_list_extant_genomes() if not g_.taxon.is_leaf()]
+                    if b_:
+                        ex.fail(cid + '-oma', D, b_[:4], species=sp_)
     def custom(cid, D, pytags, L, o):
         out = []
         # echo of the theorems' hypotheses / conclusions, evaluated by the model on this case:
@@ -347,6 +362,11 @@ def explore_maps(prop, tier, seed, n_quick, mode):
         o = ob.Obs(); o.put('load', 'ok')
         queries = []
         try:
+            if ex.rng.random() < 0.3:
+                # every taxon gets its genome (the whole-dataset profile creates the missing, empty ones): comparisons
+                # with gene-less genomes -- all lost / all gained -- are comparisons too
+                h.create_tree_profile()
+                ex.res.count('cases_with_all_genomes_created')
             if mode in ('C05', 'C06'):
                 pairs, gs = orc.lineage_pairs(h)
                 if len(pairs) > 40 and tier == 'quick':
@@ -477,9 +497,16 @@ def explore_profiles(prop, tier, seed, n_quick):
         if ex.rng.random() < 0.4:
             kw['top_positions'] = 'any'
         D = respell(ex.rng, std_dataset(ex.rng, **kw))
+        if k % 7 == 6:
+            # duplications of which a single copy is left in the file (a paralogGroup with one member): outside the
+            # spelled-history domain, but the profiles are defined for them and the model computes them
+            D.groups, nsm = gen.single_member_pgs(ex.rng, D.groups)
+            if nsm:
+                D.families = []; D.meta['single_member_pgs'] = nsm
+                ex.res.count('cases_with_single_member_paralog_groups')
         cid = '%s-%d' % (prop, k)
         ex.note_dataset(D)
-        if not any(p == () for p, _, _ in D.families):
+        if D.families and not any(p == () for p, _, _ in D.families):
             ex.res.count('cases_no_family_at_root')
         if D.meta.get('undeclared_species') or any(not g for _, g in D.species):
             ex.res.count('cases_with_geneless_species')
@@ -490,6 +517,13 @@ def explore_profiles(prop, tier, seed, n_quick):
             continue
         o = ob.Obs(); o.put('load', 'ok'); subq = []
         try:
+            if ex.rng.random() < 0.4:
+                # the profile of some sub-HOG (preferably one written without id) is asked for first
+                subs0 = [x for t in h.get_list_top_level_hogs() for x in all_nodes(t) if isinstance(x, ag.HOG) and x.parent is not None]
+                if subs0:
+                    idless0 = [x for x in subs0 if x.hog_id is None]
+                    h.create_tree_profile(hog=ex.rng.choice(idless0 or subs0))
+                    ex.res.count('sub_hog_profile_requested_first')
             bad = orc.c09(D, h, ex.tmp) if prop == 'C09' else orc.c10(D, h)
             tp = h.create_tree_profile()
             o.put('tpfull', ob.profileS(tp.treemap))
@@ -682,6 +716,12 @@ def c12(tier, seed):
         if k % 6 == 5:
             D = gen.deep_chain_dataset(ex.rng)      # duplications whose copies are long single-child chains
             ex.res.count('deep_chain_cases')
+        elif k % 6 == 4:
+            D = std_dataset(ex.rng)                 # paralogGroups with a single member: exported and re-loaded like any other
+            D.groups, nsm = gen.single_member_pgs(ex.rng, D.groups)
+            if nsm:
+                D.families = []; D.meta['single_member_pgs'] = nsm
+                ex.res.count('cases_with_single_member_paralog_groups')
         else:
             D = respell(ex.rng, std_dataset(ex.rng))
         cid = 'C12-%d' % k
@@ -766,6 +806,8 @@ def c12(tier, seed):
             ex.res.count('warn_ixml_spelling_differs')
         # echo of the round-trip theorem's ingredients on every exported HOG: export = encode(spell), wfh,
         # recoverable, the stripped HOG realises the spelling
+        if D.meta.get('single_member_pgs'):
+            return []           # (outside the theorem's domain: a duplication with one copy is not a well-formed history)
         badsp = [x for x in L.get('ispell', []) if not x.endswith('|11111')]
         ex.res.count('compared_ispell', len(L.get('ispell', [])))
         return [('model-export-spelling', [], badsp[:3])] if badsp else []
@@ -779,7 +821,11 @@ def c16(tier, seed):
     ex = Explorer('C16', tier, seed)
     n = budget(tier, 500)
     for k in range(n):
-        D = respell(ex.rng, std_dataset(ex.rng))
+        if k % 8 == 7:
+            # species-level groups (dissolved by the loader): navigation inside the family must be self-consistent there too
+            D = gen.species_wrap(ex.rng, std_dataset(ex.rng)); ex.res.count('species_level_group_files')
+        else:
+            D = respell(ex.rng, std_dataset(ex.rng))
         cid = 'C16-%d' % k
         ex.note_dataset(D)
         h = load_or_fail(ex, cid, D)
@@ -804,7 +850,7 @@ def c16(tier, seed):
             bad = ['navigation raised %s: %s' % (type(e).__name__, e)]
         if bad:
             ex.fail(cid, D, bad)
-        ex.submit(cid, D, o.tags, ['load', 'nav', 'aclust', 'atlevel'], emit=['nav'], queries=queries)
+        ex.submit(cid, D, o.tags, ['load', 'nav', 'aclust', 'atlevel'], emit=['nav'], queries=queries, hist=not D.meta.get('species_level'))
     ex.finish()
     ex.close()
     return ex.res
@@ -895,6 +941,14 @@ def c19(tier, seed):
                             bad.append('display string %s lacks the level of %s' % (r, tr.key(tn)))
                     except Exception as e:      # noqa
                         bad.append('display string of %s raised %s' % (tr.key(tn), type(e).__name__))
+        if ex.rng.random() < 0.3:
+            # rendering a family does not touch the genes' ids
+            try:
+                for t_ in h.get_list_top_level_hogs()[:2]:
+                    h.create_iHam(t_)
+                ex.res.count('genes_checked_after_iham')
+            except Exception as e:      # noqa
+                bad.append('create_iHam raised %s' % type(e).__name__)
         for g in h.get_list_extant_genes():
             xr = dict(decl.get(g.unique_id, []))
             if (g.gene_id, g.prot_id, g.transcript_id) != (xr.get('geneId'), xr.get('protId'), xr.get('transcriptId')):
@@ -977,6 +1031,10 @@ def fault_variants(rng, D, limit):
             inner = path + ((3,) if e[0] == 'og' else (2,)) + (rng.randint(0, len(e[3] if e[0] == 'og' else e[2])),)
             out.append(('empty-orthologGroup', D.species, insert(D.groups, inner, ('og', None, None, []))))
             out.append(('empty-paralogGroup', D.species, insert(D.groups, inner, ('pg', None, []))))
+            if internal:
+                # an empty group that still carries its annotations (TaxRange naming an existing clade, a score)
+                out.append(('empty-annotated-orthologGroup', D.species, insert(D.groups, inner,
+                            ('og', None, None, [('prop', 'TaxRange', rng.choice(internal)), ('score', 'bootstrap', '1.0')]))))
     out.append(('empty-orthologGroup', D.species, list(D.groups) + [('og', 'E1', None, [])]))
     if len(out) > limit:
         out = rng.sample(out, limit)
@@ -1037,7 +1095,20 @@ def c20(tier, seed):
             except Exception as e:      # noqa
                 o.put('rejected', 'yes')
                 ex.res.count('pyham_' + kind + '_' + ob.err_name(e))
-            ex.submit(cid, D, o.tags, [], groups=gr, species=sp, hist=False, extra=(kind, o))
+            q20 = []
+            tids20 = [g[1] for g in gr if g[0] == 'og' and g[1] is not None]
+            if kind not in ('unknown-species', 'internal-as-species') and tids20 and len(tids20) == len([g for g in gr if g[0] == 'og']) and j % 3 == 0:
+                # the same faulty file loaded through a filter that selects every family: still rejected, nothing skipped
+                f20 = pyham.ParserFilter(); f20.add_hogs_via_hogId(tids20)
+                try:
+                    core.load_py(D, groups=gr, species=sp, filter_object=f20)
+                    o.put('frejected', 'no')
+                    ex.fail(cid + '-f', D, ['%s accepted by a filtered load that selects the faulty family' % kind], groups=gr, species=sp)
+                except Exception:      # noqa
+                    o.put('frejected', 'yes')
+                ex.res.count('faults_also_loaded_through_a_filter')
+                q20 = ['(filter 0 (hog %s) (ext) (int))' % ' '.join(map(gen.q, tids20))]
+            ex.submit(cid, D, o.tags, [], groups=gr, species=sp, hist=False, extra=(kind, o), queries=q20)
     # ---- the same in species_resolve_mode="OMA" (a clade named as species resolves to its only child that looks like
     # an OMA species code; everything else as in the default mode)
     import re as _re
@@ -1099,6 +1170,10 @@ def c20(tier, seed):
         lean_rej = 'yes' if L.get('load', ['ok'])[0].startswith('err:') else 'no'
         if pytags.get('rejected') != [lean_rej]:
             out.append(('rejected', pytags.get('rejected'), [lean_rej + ' ' + str(L.get('load'))]))
+        if pytags.get('frejected'):
+            lean_f = 'yes' if L.get('F0.load', ['ok'])[0].startswith('err:') else 'no'
+            if pytags['frejected'] != [lean_f]:
+                out.append(('rejected-under-a-filter', pytags.get('frejected'), [lean_f + ' ' + str(L.get('F0.load'))]))
         return out
     ex.finish(custom)
     ex.close()
